@@ -21,6 +21,7 @@ func init() {
 		ruleR07a(c)
 		ruleR07b(c)
 		ruleStoreLookupScoped(c, "R07c", "Store.ReadLogWithIdempotencyKey", "idempotency_key")
+		ruleVerbatimField(c, "R07d", "IdempotencyKey", 3)
 	})
 	register("C11", propMeta{
 		Level: "other",
@@ -30,6 +31,7 @@ func init() {
 	}, func(c *Ctx) {
 		ruleR11a(c)
 		ruleStoreLookupScoped(c, "R11b", "Store.GetTransactionByReference", "reference")
+		ruleVerbatimField(c, "R11c", "Reference", 3)
 	})
 	register("C10", propMeta{
 		Level: "other",
